@@ -303,7 +303,7 @@ class SimNet:
     def pending(self):
         return [c for c, a in enumerate(self.attempts) if a["state"] == "pending"]
 
-    def resolve_c(self, c, how, exc=None, pause_in=0):
+    def resolve_c(self, c, how, exc=None, pause_in=0, fault_in=0):
         a = self.attempts[c]
         if a["state"] != "pending":
             return False
@@ -315,6 +315,7 @@ class SimNet:
         if how == "ok":
             tr = FakeTransport(self, c)
             tr.pause_in = pause_in
+            tr.fault_in = fault_in       # the n-th write on the new connection fails (the peer accepted, then dropped it)
             reader = asyncio.StreamReader(loop=self.loop)
             proto = asyncio.StreamReaderProtocol(reader, loop=self.loop)
             tr.set_protocol(proto)
